@@ -412,3 +412,166 @@ func cmdReplayVerdict(args []string) error {
 func init() {
 	register("replay-verdict", cmdReplayVerdict)
 }
+
+// ---- code -> spec: random bags ----
+
+type verdictEvent struct {
+	Rules []*aRule `json:"rules"`
+	Src   []*aRule `json:"src"`
+	DNS   bool     `json:"dns"`
+	Entry string   `json:"entry"`
+	Class string   `json:"class"`
+	Rule  int      `json:"rule"`
+	Texts []string `json:"texts"`
+	SrcT  []string `json:"src_texts"`
+}
+
+func rndVerdictRule(rnd *rand.Rand, src bool, k int) *aRule {
+	pat := "||h.test^"
+	if src {
+		pat = "||src.test^"
+	}
+	r := emptyRule(pat)
+	has := func(p int) bool { return rnd.Intn(100) < p }
+	r.White = has(45)
+	r.Important = has(25)
+	if !src && has(35) {
+		r.PermDom = hostsOf([]string{"src.test"})
+	}
+	if has(25) {
+		r.Third = "on"
+	}
+	if src {
+		r.Third = "none"
+	}
+	if has(20) {
+		r.RestTypes = []string{[]string{"script", "image", "media"}[rnd.Intn(3)]}
+	}
+	if r.White && has(40) {
+		r.DocOpts = [][]string{{"urlblock"}, {"genericblock"}, {"elemhide"}, {"elemhide", "jsinject", "urlblock", "content", "extension"}, {"urlblock", "genericblock"}}[rnd.Intn(5)]
+	} else if r.White && has(10) {
+		r.Misc = []string{"stealth"}
+	}
+	if has(12) {
+		r.Rewrite = [][]int{bytesToInts([]string{"1.2.3.4", "NXDOMAIN", "c.test"}[rnd.Intn(3)])}
+	}
+	if !src && has(15) {
+		r.RestDom = hostsOf([]string{fmt.Sprintf("x%d.test", k%3)})
+	}
+	return r
+}
+
+// vh drive-verdict n=<events> out=<trace.ndjson>
+func cmdDriveVerdict(args []string) error {
+	m := argMap(args)
+	n := argInt(m, "n", 5000)
+	out, err := newNDWriter(m["out"])
+	if err != nil {
+		return err
+	}
+	defer out.close()
+	rnd := rand.New(rand.NewSource(seed()*23 + 8))
+	req := newVerdictReq()
+	srcReq := rules.NewRequest(verdictSrcURL, "", rules.TypeDocument)
+	nontrivial := 0
+	var samples []any
+	for out.n < n {
+		ev := verdictEvent{Rules: []*aRule{}, Src: []*aRule{}, Texts: []string{}, SrcT: []string{}}
+		var objs, sobjs []*rules.NetworkRule
+		seen := map[string]bool{}
+		add := func(a *aRule, src bool) bool {
+			t := a.text(rnd.Intn(3), rnd)
+			key := a.text(0, rand.New(rand.NewSource(1)))
+			if seen[key] {
+				return false
+			}
+			r, perr := rules.NewNetworkRule(t, 1)
+			if perr != nil {
+				return false
+			}
+			if src {
+				if !r.Match(srcReq) || r.Match(req) {
+					return false
+				}
+				ev.Src, sobjs, ev.SrcT = append(ev.Src, a), append(sobjs, r), append(ev.SrcT, t)
+			} else {
+				if !r.Match(req) || r.Match(srcReq) {
+					return false
+				}
+				ev.Rules, objs, ev.Texts = append(ev.Rules, a), append(objs, r), append(ev.Texts, t)
+			}
+			seen[key] = true
+			return true
+		}
+		nb := rnd.Intn(13)
+		for k := 0; k < nb; k++ {
+			a := rndVerdictRule(rnd, false, k)
+			if add(a, false) && rnd.Intn(5) == 0 {
+				// its $badfilter twin, sometimes
+				b := *a
+				b.Badfilter = true
+				add(&b, false)
+			}
+		}
+		ev.DNS = rnd.Intn(3) == 0
+		if !ev.DNS {
+			for k := 0; k < rnd.Intn(4); k++ {
+				a := rndVerdictRule(rnd, true, k)
+				if a.Misc != nil && len(a.Misc) > 0 && len(a.DocOpts) > 0 {
+					continue
+				}
+				if add(a, true) && rnd.Intn(6) == 0 {
+					b := *a
+					b.Badfilter = true
+					add(&b, true)
+				}
+			}
+		}
+		// the order the code sees is a random permutation
+		rnd.Shuffle(len(objs), func(i, j int) {
+			objs[i], objs[j] = objs[j], objs[i]
+			ev.Rules[i], ev.Rules[j] = ev.Rules[j], ev.Rules[i]
+			ev.Texts[i], ev.Texts[j] = ev.Texts[j], ev.Texts[i]
+		})
+		var got *rules.NetworkRule
+		fromDoc := false
+		pv := safeCall(func() {
+			if ev.DNS {
+				ev.Entry = "GetDNSBasicRule"
+				got = rules.GetDNSBasicRule(append([]*rules.NetworkRule{}, objs...))
+			} else {
+				ev.Entry = "NewMatchingResult"
+				res := rules.NewMatchingResult(append([]*rules.NetworkRule{}, objs...), append([]*rules.NetworkRule{}, sobjs...))
+				got = res.GetBasicResult()
+				fromDoc = res.BasicRule == nil
+			}
+		})
+		ev.Class = classOf(got)
+		if pv != "" {
+			ev.Class = "panic " + pv
+		}
+		if got != nil && !fromDoc {
+			for i, o := range objs {
+				if o == got {
+					ev.Rule = i + 1
+				}
+			}
+			if ev.Rule == 0 {
+				ev.Class = "reported a rule that was not given"
+			}
+		}
+		if ev.Class != "none" {
+			nontrivial++
+		}
+		if len(samples) < 3 && len(ev.Texts) >= 4 && out.n%211 == 7 {
+			samples = append(samples, map[string]any{"rules": ev.Texts, "referrer": ev.SrcT, "class": ev.Class})
+		}
+		out.write(ev)
+	}
+	summary(map[string]any{"events": out.n, "nontrivial": nontrivial, "samples": samples})
+	return nil
+}
+
+func init() {
+	register("drive-verdict", cmdDriveVerdict)
+}
